@@ -207,6 +207,14 @@ func vC05Multi(T int) {
 		probes[i] = &vProbe{name: "src" + vItoa(i)}
 		srcs[i] = probes[i]
 	}
+	var steps []vMStep
+	// one source (or none) delivers a first value inside its own subscribe call, as a subject with a
+	// current value, a replay or StartWith does: that notification arrives when the operator
+	// subscribes the source, before the operator holds the subscription
+	if k := vChoice("sync", op.nsrc+1); k < op.nsrc {
+		probes[k].cold, probes[k].script = true, []vStep{{vkNext, vInt64("v_sync")}}
+		probes[k].mlog, probes[k].midx = &steps, k
+	}
 	c := &vCtx{src: srcs, L: T}
 	pipe := op.mk(c)
 	rec := &vRecorder{}
@@ -217,7 +225,6 @@ func vC05Multi(T int) {
 		returned = true
 	})
 	vQuiesce()
-	var steps []vMStep
 	ended := make([]bool, op.nsrc)
 	for t := 0; t < T; t++ {
 		s := vMStep{src: vChoice("src"+vItoa(t), op.nsrc), kind: vChoice("k"+vItoa(t), 3)}
